@@ -107,9 +107,9 @@ func runC17(c *engine.Ctx) {
 	c.Level = "model_checking"
 	c.Rule = "case = PUT /<name> for every string over {a,z,0,9,-,.,A,_} up to the length bound plus the length/IP families, on mem, bolt and multi-bucket fs, compared with an independent regex-free implementation of the stated rule; refused names are probed with HEAD, and after every chunk ListBuckets must equal the set of created names; distinct_nontrivial = distinct names accepted by the oracle"
 	c.Assumptions = append(c.Assumptions, "IPv4 look-alikes with leading zeros or components > 255 may be accepted or refused", "names containing '/' address a key, not a bucket, and are not bucket names")
-	maxLen := 5
+	maxLen := 6
 	if !quick(c) {
-		maxLen = 6
+		maxLen = 7
 	}
 	chunks, total := c17Names(maxLen)
 	c.Bounds["alphabet"] = "az09-.A_"
